@@ -85,7 +85,7 @@ def gen_cases(kind, tier, seed, path):
 
 
 def model_schedules(cases_path, pred_path):
-    """-> list of (case id, session text, [(steps text, final text, complete)])"""
+    """-> list of (case id, session text, [(steps text, final text, complete, flight_ok, lostbuf index)])"""
     with open(cases_path) as fin, open(pred_path, "w") as fout:
         q = subprocess.run([check.DRIVER], stdin=fin, stdout=fout, stderr=subprocess.PIPE, timeout=3600)
     if q.returncode != 0:
@@ -104,8 +104,9 @@ def model_schedules(cases_path, pred_path):
             raise check.ProofBroken("model", "the model rejected a generated session: %s -> %s" % (c[:300], body[:300]))
         scheds = []
         for s in split_top(body)[1:]:
-            se = split_top(s)       # sched|sched-incomplete (steps ...) (final ...) (flightok B)
-            scheds.append((se[1], se[2], se[0] == "sched", len(se) > 3 and se[3] == "(flightok 1)"))
+            se = split_top(s)       # sched|sched-incomplete (steps ...) (final ...) (flightok B) (lostbuf IDX)
+            lost = int(split_top(se[4])[1]) if len(se) > 4 and se[4].startswith("(lostbuf") else -1
+            scheds.append((se[1], se[2], se[0] == "sched", len(se) > 3 and se[3] == "(flightok 1)", lost))
         out.append((ce[1], session, scheds))
     return out
 
@@ -162,6 +163,28 @@ def replay(items, work, tag="replay", timeout=1500):
 def explore(case_lines, work, tag="explore", timeout=3000):
     """case lines `(case ID atpexplore (SESSION STRATEGY))` -> {id: xsum line}"""
     return _run_chunks("explore", case_lines, work, tag, timeout)
+
+
+def diverged(obs):
+    """`(diverged IDX ROLE WANT GOT (then (stuck B) FINAL (choices ...)))` -> dict, or None for any other observation.
+    After a correspondence divergence the driver continues the session on the real client alone (deterministic
+    gate-by-gate scheduler); `stuck` says that an Execute or Close had still not returned when nothing could move."""
+    if not obs.startswith("(diverged"):
+        return None
+    e = split_top(obs)
+    d = {"idx": e[1], "role": e[2], "want": e[3], "got": e[4], "stuck": False, "final": None, "choices": None}
+    if len(e) > 5 and e[5].startswith("(then"):
+        t = split_top(e[5])
+        d["stuck"] = t[1] == "(stuck 1)"
+        d["final"] = t[2]
+        d["choices"] = t[3]
+    return d
+
+
+def diverged_text(d, why):
+    return ("the real client leaves the model's schedule at step %s (%s: the model expects %s, found %s); continued from there gate by "
+            "gate under a deterministic scheduler (peer answering) it ends with: %s - failing input = the schedule up to that step, "
+            "then %s" % (d["idx"], d["role"], d["want"], d["got"], why, d["choices"]))
 
 
 def field(text, name):
